@@ -1,6 +1,6 @@
 """Translator: /repo source -> lean/Cinco/Cinco/Generated/*.lean, rewritten on every run (only when the
 content changed, so that Lake stays incremental).  Deliberately dumb: it reads tables, method sets and
-straight-line effect sequences with `ast`, and aborts (InfraError -> exit 2) on syntax it does not know."""
+straight-line effect sequences with `ast`, and reports syntax it does not know (the table is then left as last read and the check treats its obligations as not established)."""
 import ast
 import os
 import sys
@@ -523,13 +523,14 @@ def fast_paths_table(repo):
 
 
 def run(repo):
+    """regenerate every table; a table whose source the translator cannot read any more is left as it was (the last reading) and
+    reported under "unreadable": the obligations over it are then not established for the current source"""
     notes = {}
-    notes.update(tables(repo))
-    notes.update(overrides(repo))
-    notes.update(effects(repo))
-    notes.update(stub_effects(repo))
-    notes.update(defaults_table(repo))
-    notes.update(fast_paths_table(repo))
+    for step in (tables, overrides, effects, stub_effects, defaults_table, fast_paths_table):
+        try:
+            notes.update(step(repo))
+        except Unknown as e:
+            notes.setdefault("unreadable", []).append({"table": step.__name__, "why": str(e)})
     return notes
 
 
